@@ -197,6 +197,41 @@ def _std_model(ex, c, args, guard, site):
             b = args[1]
             if fn == 'min': return IV(z3.If(a.t <= b.t, a.t, b.t), ty, min(a.lo, b.lo), min(a.hi, b.hi)), T
             return IV(z3.If(a.t >= b.t, a.t, b.t), ty, max(a.lo, b.lo), max(a.hi, b.hi)), T
+        if fn in ('abs_diff',):
+            b = args[1]
+            uty = 'u' + ty[1:] if ty[0] == 'i' else ty
+            d = a.t - b.t
+            return IV(z3.If(d >= 0, d, -d), uty, 0, max(abs(a.hi - b.lo), abs(b.hi - a.lo))), T
+        if fn in ('checked_div', 'checked_rem', 'checked_neg', 'checked_abs'):
+            if fn == 'checked_neg':
+                okb = ex.cmp_iv('Ne', a, mk_int(lo, ty)) if lo < 0 else ex.cmp_iv('Eq', a, mk_int(0, ty))
+                return en2(okb, [], [IV(-a.t, ty, max(lo, -a.hi), min(hi, -a.lo))], 'Option'), T
+            if fn == 'checked_abs':
+                okb = ex.cmp_iv('Ne', a, mk_int(lo, ty))
+                return en2(okb, [], [IV(z3.If(a.t >= 0, a.t, -a.t), ty, 0, max(abs(a.lo + 1), abs(a.hi)))], 'Option'), T
+            b = args[1]
+            if b.const() is None or b.const() == 0: raise Inconclusive('%s by a symbolic or zero divisor' % fn)
+            r = ex.binop('Div' if fn == 'checked_div' else 'Rem', a, b)
+            okb = mk_bool(True) if not (lo < 0 and b.const() == -1) else ex.cmp_iv('Ne', a, mk_int(lo, ty))
+            return en2(okb, [], [r], 'Option'), T
+        if fn in ('overflowing_add', 'overflowing_sub', 'overflowing_mul'):
+            b = args[1]
+            r = ex.binop({'overflowing_add': 'AddWithOverflow', 'overflowing_sub': 'SubWithOverflow', 'overflowing_mul': 'MulWithOverflow'}[fn], a, b)
+            return r, T
+        if fn == 'saturating_mul':
+            b = args[1]
+            if a.const() is None and b.const() is None: raise Inconclusive('nonlinear saturating_mul')
+            t = a.t * b.t
+            p_ = [a.lo * b.lo, a.lo * b.hi, a.hi * b.lo, a.hi * b.hi]
+            return IV(z3.If(t < lo, lo, z3.If(t > hi, hi, t)), ty, max(min(p_), lo), min(max(p_), hi)), T
+        if fn == 'clamp':
+            l_, h_ = args[1], args[2]
+            ctx.panics.append((zand(guard, l_.t > h_.t), site, 'clamp: min > max'))
+            return IV(z3.If(a.t < l_.t, l_.t, z3.If(a.t > h_.t, h_.t, a.t)), ty, max(a.lo, l_.lo), min(a.hi, h_.hi)) if max(a.lo, l_.lo) <= min(a.hi, h_.hi) else IV(z3.If(a.t < l_.t, l_.t, z3.If(a.t > h_.t, h_.t, a.t)), ty, lo, hi), l_.t <= h_.t
+        if fn in ('is_power_of_two', 'count_ones', 'leading_zeros', 'trailing_zeros') and a.const() is not None:
+            v = a.const()
+            if fn == 'is_power_of_two': return mk_bool(v > 0 and v & (v - 1) == 0), T
+            if fn == 'count_ones': return mk_int(bin(v % (1 << INT_TYPES[ty][0])).count('1'), 'u32'), T
         if fn == 'signum':
             return IV(z3.If(a.t > 0, 1, z3.If(a.t < 0, -1, 0)), ty, -1 if a.lo < 0 else (0 if a.lo == 0 else 1), 1 if a.hi > 0 else (0 if a.hi == 0 else -1)), T
         if fn in ('from_be_bytes', 'from_le_bytes'):
@@ -283,8 +318,6 @@ def _std_model(ex, c, args, guard, site):
             if isgood.c is True: return payload[0], T
             if isgood.c is False: return args[1], T
             return merge(isgood, payload[0], args[1]), T
-        if fn == 'unwrap_or_default':
-            raise Inconclusive('unwrap_or_default')
         if fn == 'unwrap_or_else':
             clo = args[1]
             if isgood.c is True: return payload[0], T
@@ -323,6 +356,45 @@ def _std_model(ex, c, args, guard, site):
             if isgood.c is True: return v, rg
             other = En(mk_int(bad, 'isize'), {bad: o.v.get(bad, [])}, kind)
             return merge(isgood, v, other), zor(znot(isgood.t), rg)
+        if fn in ('map_or', 'map_or_else'):
+            # map_or(default, f) / map_or_else(default_fn, f)
+            if fn == 'map_or': dv, drg = args[1], T
+            elif isgood.c is True: dv, drg = None, T
+            else: dv, drg = call_closure(ex, args[1], [] if kind == 'Option' else [o.v.get(bad, [Opaque('e')])[0]], zand(guard, znot(isgood.t)))
+            if isgood.c is False: return dv, drg
+            v, rg = call_closure(ex, args[2], [payload[0]], zand(guard, isgood.t))
+            if isgood.c is True: return v, rg
+            return merge(isgood, v, dv), T
+        if fn in ('or', 'or_else') and kind == 'Option':
+            if isgood.c is True: return o, T
+            alt, rg = (args[1], T) if fn == 'or' else call_closure(ex, args[1], [], zand(guard, znot(isgood.t)))
+            if isgood.c is False: return alt, rg
+            return merge(isgood, o, alt), T
+        if fn == 'and' and kind == 'Option':
+            none = En(mk_int(0, 'isize'), {0: []}, 'Option')
+            if isgood.c is True: return args[1], T
+            if isgood.c is False: return none, T
+            return merge(isgood, args[1], none), T
+        if fn == 'filter' and kind == 'Option':
+            if isgood.c is False: return o, T
+            keep, rg = call_closure(ex, args[1], [cell(ex, payload[0])], zand(guard, isgood.t))
+            both = ex.binop('BitAnd', isgood, keep)
+            return en2(both, [], payload, 'Option'), T
+        if fn in ('is_some_and', 'is_ok_and', 'is_none_or'):
+            if isgood.c is False: return mk_bool(fn == 'is_none_or'), T
+            v, rg = call_closure(ex, args[1], [payload[0]], zand(guard, isgood.t))
+            if fn == 'is_none_or': return ex.binop('BitOr', (mk_bool(not isgood.c) if isgood.c is not None else BV(z3.Not(isgood.t))), v), T
+            return ex.binop('BitAnd', isgood, v), T
+        if fn == 'unwrap_or_default':
+            dflt = None
+            if payload and isinstance(payload[0], IV): dflt = mk_int(0, payload[0].ty)
+            elif payload and isinstance(payload[0], BV): dflt = mk_bool(False)
+            if dflt is None: raise Inconclusive('unwrap_or_default of a non-scalar')
+            if isgood.c is True: return payload[0], T
+            if isgood.c is False: return dflt, T
+            return merge(isgood, payload[0], dflt), T
+        if fn == 'err' and kind == 'Result':
+            return En(o.disc, {0: [], 1: o.v.get(1, [Opaque('e')])}, 'Option'), T
         if fn == 'copied' or fn == 'cloned':
             nv = dict(o.v)
             if good in nv and nv[good]: nv[good] = [ex.deref(nv[good][0])]
@@ -342,6 +414,39 @@ def _std_model(ex, c, args, guard, site):
         if m.group(1) == 'Result':
             return En(mk_int(1, 'isize'), {1: r.v.get(1, [Opaque('e')])}, 'Result'), T
         return En(mk_int(0, 'isize'), {0: []}, 'Option'), T
+    m = re.match(r'^(?:core::)?bool::<impl bool>::(then_some|then)$', cs) or re.match(r'^core::bool::<impl bool>::(then_some|then)$', cs)
+    if m:
+        b = args[0]
+        if m.group(1) == 'then_some': v, rg = args[1], T
+        elif b.c is False: v, rg = None, T
+        else: v, rg = call_closure(ex, args[1], [], zand(guard, b.t))
+        if b.c is False: return En(mk_int(0, 'isize'), {0: []}, 'Option'), T
+        return en2(b, [], [v], 'Option'), T
+    m = re.match(r'^(?:std::cmp::)?Ordering::(is_lt|is_le|is_gt|is_ge|is_eq|is_ne|reverse|then)$', cs)
+    if m:
+        a = ex.deref(args[0]); fn = m.group(1)
+        if fn == 'reverse': return IV(-a.t, 'i8', -a.hi, -a.lo), T
+        if fn == 'then':
+            b = args[1]; return IV(z3.If(a.t == 0, b.t, a.t), 'i8', -1, 1), T
+        return bv_of({'is_lt': a.t < 0, 'is_le': a.t <= 0, 'is_gt': a.t > 0, 'is_ge': a.t >= 0, 'is_eq': a.t == 0, 'is_ne': a.t != 0}[fn]), T
+    m = re.match(r'^<\((.*)\) as PartialOrd>::(lt|le|gt|ge|partial_cmp)$', cs) or re.match(r'^<\((.*)\) as Ord>::(cmp)$', cs)
+    if m:
+        a, b = ex.deref(args[0]), ex.deref(args[1])
+        if isinstance(a, Agg) and isinstance(b, Agg) and len(a.f) == len(b.f) and all(isinstance(ex.deref(x), IV) for x in a.f + b.f):
+            lt = F; eq = T
+            for x, y in zip(a.f, b.f):
+                x, y = ex.deref(x), ex.deref(y)
+                lt = zor(lt, zand(eq, x.t < y.t)); eq = zand(eq, x.t == y.t)
+            fn = m.group(2)
+            if fn in ('cmp', 'partial_cmp'):
+                o = IV(z3.If(lt, -1, z3.If(eq, 0, 1)), 'i8', -1, 1)
+                return (o if fn == 'cmp' else En(mk_int(1, 'isize'), {1: [o]}, 'Option')), T
+            return bv_of({'lt': lt, 'le': zor(lt, eq), 'gt': znot(zor(lt, eq)), 'ge': znot(lt)}[fn]), T
+    m = re.match(r'^<(%s) as Ord>::clamp$' % INT, cs) or re.match(r'^std::cmp::Ord::clamp$', cs)
+    if m and len(args) == 3 and all(isinstance(x, IV) for x in args):
+        a, l_, h_ = args
+        ctx.panics.append((zand(guard, l_.t > h_.t), site, 'clamp: min > max'))
+        return IV(z3.If(a.t < l_.t, l_.t, z3.If(a.t > h_.t, h_.t, a.t)), a.ty, min(a.lo, l_.lo), max(a.hi, h_.hi)), l_.t <= h_.t
     # ---- comparisons
     m = re.match(r'^<&*(%s|char|bool) as (?:Partial)?Ord>::(cmp|partial_cmp)$' % INT, cs)
     if m:
@@ -398,7 +503,7 @@ def _std_model(ex, c, args, guard, site):
     # ---- RangeInclusive<int> iteration with concrete bounds
     m = re.match(r'^<RangeInclusive<(%s)> as IntoIterator>::into_iter$' % INT, cs) or re.match(r'^<std::ops::Range<(%s)> as IntoIterator>::into_iter$' % INT, cs)
     if m: return args[0], T
-    m = re.match(r'^RangeInclusive::<(%s)>::new$' % INT, cs)
+    m = re.match(r'^(?:std::ops::)?RangeInclusive::<(%s)>::new$' % INT, c)
     if m: return Agg([args[0], args[1], mk_bool(False)], 'struct:RangeInclusive'), T
     m = re.match(r'^<RangeInclusive<(%s)> as Iterator>::next$' % INT, cs) or re.match(r'^<std::ops::RangeInclusive<(%s)> as Iterator>::next$' % INT, cs) \
         or re.match(r'^std::iter::range::<impl Iterator for RangeInclusive<(%s)>>::next$' % INT, cs)
